@@ -41,9 +41,68 @@ def pysym_selftest():
     return True
 
 
+def kani_selftest():
+    """the correct reference must pass (with its accepting cover reached); sabotaged references must fail"""
+    import os
+    from . import harness, kanirun
+    from .build import WORK
+    f = M.File('little', [M.packet('T', [M.scalar('a', 3), M.scalar('b', 13), M.size('v', 8), M.array('v', width=16)])])
+    text = build.pdlc(M.to_pdl(f), 'rust', (), 'selftest')
+    f2 = M.File('little', [M.packet('T', [M.scalar('a', 5), M.scalar('b', 11), M.size('v', 8), M.array('v', width=16)])])
+    f3 = M.File('little', [M.packet('T', [M.scalar('a', 3), M.scalar('b', 13), M.count('v', 8), M.array('v', width=16)])])
+    mods = {}
+    for name, ff in (('m_ok', f), ('m_bad_endian', f.twin()), ('m_bad_shift', f2), ('m_bad_size', f3)):
+        hg = harness.HarnessGen(Model(ff), 6, 2)
+        mods[name] = hg.module(text, [('c04', 'T', 6), ('c03', 'T', 6)])
+    crate = os.path.join(WORK, 'kani', 'selftest')
+    kanirun.write_crate(crate, mods)
+    res, out = kanirun.cargo_kani(crate, kanirun.shard_target(0), jobs=8, harness_timeout=300)
+    want = {'m_ok::c04_T': 'success', 'm_ok::c03_T': 'success', 'm_bad_endian::c04_T': 'failed', 'm_bad_endian::c03_T': 'failed',
+            'm_bad_shift::c04_T': 'failed', 'm_bad_shift::c03_T': 'failed', 'm_bad_size::c04_T': 'failed'}
+    ok = True
+    for k, v in want.items():
+        r = res.get(k)
+        if r is None or r.status != v or (v == 'success' and r.unsat_covers):
+            log(f'[selftest] kani: {k}: expected {v}, got {r.status if r else None} {r.unsat_covers if r else ""}')
+            ok = False
+    if not ok:
+        log(out[-1500:])
+    return ok
+
+
+def llir_selftest():
+    from . import llir
+    good = M.File('little', [M.enum('E', 8, [M.TagValue('A', 0), M.TagValue('B', 255), M.TagRange('R', 16, 31)]),
+                             M.packet('P', [M.typedef('e', 'E')])])
+    bad = M.File('little', [M.enum('E', 8, [M.TagValue('A', 0), M.TagValue('B', 254), M.TagRange('R', 16, 31)]),
+                            M.packet('P', [M.typedef('e', 'E')])])
+    bad2 = M.File('little', [M.enum('E', 8, [M.TagValue('A', 0), M.TagValue('B', 255), M.TagRange('R', 16, 32)]),
+                             M.packet('P', [M.typedef('e', 'E')])])
+    text = build.pdlc(M.to_pdl(good), 'cxx', (), 'selftest')
+    cpp, names = llir.isvalid_functions(text)
+    if names != ['E']:
+        return False
+    fns = llir.parse_ir(llir._join_switches(llir.compile_ir(cpp, 'selftest')))
+    if llir.check_enum(fns['IsValidE'], Model(good), 'E') is not None:
+        return False
+    fns = llir.parse_ir(llir._join_switches(llir.compile_ir(cpp, 'selftest')))
+    c1 = llir.check_enum(fns['IsValidE'], Model(bad), 'E')
+    fns = llir.parse_ir(llir._join_switches(llir.compile_ir(cpp, 'selftest')))
+    c2 = llir.check_enum(fns['IsValidE'], Model(bad2), 'E')
+    return c1 in (254, 255) and c2 == 32
+
+
 def main():
     if not pysym_selftest():
         print('setup: E-PYSYM self-test failed')
         return 2
     log('[setup] E-PYSYM self-test: correct oracle confirmed, 3 sabotaged oracles refuted')
+    if not llir_selftest():
+        print('setup: E-LLIR self-test failed')
+        return 2
+    log('[setup] E-LLIR self-test: correct membership confirmed, 2 sabotaged memberships refuted')
+    if not kani_selftest():
+        print('setup: E-KANI self-test failed')
+        return 2
+    log('[setup] E-KANI self-test: correct reference confirmed (covers reached), 5 sabotaged references refuted')
     return 0
